@@ -465,14 +465,47 @@ func (m *model) history() string {
 }
 
 // report hands a violated clause to the evidence protocol. With an unknown key the test fails
-// here; a known key is counted once per history and judging goes on behind it.
+// here. A key listed as a known finding is counted and the history ends: the state behind a known
+// defect is no longer one the model describes, so nothing after it is judged (no follow-on noise
+// under other keys).
 func (m *model) report(t ev.TB, key, format string, args ...any) {
-	if m.knownHits[key] {
+	if m.stopped {
 		return
 	}
 	msg := fmt.Sprintf(format, args...)
-	ev.Violation(t, key, "%s | history: %s", msg, m.history())
-	m.knownHits[key] = true
+	if ev.Violation(t, key, "%s | history: %s", msg, m.history()) {
+		m.knownHits[key] = true
+		m.stopped = true
+	}
+}
+
+// keepGoingFamily is the key family of the recorded finding "--keep_going without --overwrite
+// silently keeps existing certificate objects / manifest entries that belong to another key".
+const keepGoingFamily = "C12/keep-going-kept-foreign-certificate/"
+
+// keptByKeepGoing says whether certificate c, served after command a, was NOT written by a: the
+// command carried --keep_going and not --overwrite, and the very same certificate was already
+// served by the authority (under any key version name) or stored as an object before the command
+// and is unchanged.
+func keptByKeepGoing(a action, prev, cur *obs, c *x509.Certificate) bool {
+	if !a.KeepGoing || a.Overwrite || prev == nil {
+		return false
+	}
+	for _, p := range prev.Certs {
+		if bytes.Equal(p.Raw, c.Raw) {
+			return true
+		}
+	}
+	if prev.Root != nil && bytes.Equal(prev.Root.Raw, c.Raw) {
+		return true
+	}
+	hc := h(c.Raw)
+	for path, hh := range prev.Objects {
+		if hh == hc && cur.Objects[path] == hc {
+			return true
+		}
+	}
+	return false
 }
 
 func isCertObject(p string) bool { return strings.HasSuffix(p, ".crt") }
@@ -557,6 +590,9 @@ func (m *model) step(t ev.TB, a action) bool {
 		}
 	}
 
+	if m.stopped {
+		return false
+	}
 	if err != nil {
 		if cur.same(prev) {
 			ev.Class("history", "step: refused-without-side-effects/"+a.Kind)
@@ -579,7 +615,7 @@ func (m *model) step(t ev.TB, a action) bool {
 		m.afterRotate(t, a, prev, cur)
 	}
 	if a.Kind != "wipeout" {
-		m.judgeChain(t, a, cur)
+		m.judgeChain(t, a, prev, cur)
 	}
 	return !m.stopped
 }
@@ -758,7 +794,7 @@ func (m *model) afterRotate(t ev.TB, a action, prev, cur *obs) {
 
 // judgeChain checks the chain-of-trust clauses on everything readable after a successful
 // bootstrap or rotation.
-func (m *model) judgeChain(t ev.TB, a action, cur *obs) {
+func (m *model) judgeChain(t ev.TB, a action, prev, cur *obs) {
 	if m.stopped {
 		return
 	}
@@ -806,38 +842,51 @@ func (m *model) judgeChain(t ev.TB, a action, cur *obs) {
 		if n == cur.PrimName {
 			who = fmt.Sprintf("certificate of the primary key version %q", n)
 		}
+		// A clause violated by a certificate that this command did not write because --keep_going
+		// (without --overwrite) made the store keep what was there is the recorded keep-going
+		// finding, whatever the clause; every other violation keeps its plain key.
+		kept := keptByKeepGoing(a, prev, cur, c)
+		if kept {
+			who += " (pre-existing, left untouched by this --keep_going command)"
+		}
+		ck := func(key string) string {
+			if kept {
+				return keepGoingFamily + strings.TrimPrefix(key, "C12/")
+			}
+			return key
+		}
 		if c.IsCA {
-			m.report(t, "C12/signing-cert-is-ca", "after `%s` the %s is a CA certificate: %s", a, who, certLine(c))
+			m.report(t, ck("C12/signing-cert-is-ca"), "after `%s` the %s is a CA certificate: %s", a, who, certLine(c))
 		}
 		if c.KeyUsage&x509.KeyUsageDigitalSignature == 0 || c.KeyUsage&x509.KeyUsageCertSign != 0 {
-			m.report(t, "C12/signing-cert-key-usage-wrong", "after `%s` the %s must have the digital-signature usage and not the certificate-signing usage: %s", a, who, certLine(c))
+			m.report(t, ck("C12/signing-cert-key-usage-wrong"), "after `%s` the %s must have the digital-signature usage and not the certificate-signing usage: %s", a, who, certLine(c))
 		}
 		if c.SignatureAlgorithm != x509.SHA256WithRSAPSS {
-			m.report(t, "C12/signing-cert-not-sha256-rsapss", "after `%s` the %s: %s", a, who, certLine(c))
+			m.report(t, ck("C12/signing-cert-not-sha256-rsapss"), "after `%s` the %s: %s", a, who, certLine(c))
 		}
 		if !bytes.Equal(c.RawIssuer, r.RawSubject) || c.CheckSignatureFrom(r) != nil {
 			key := "C12/signing-cert-not-issued-by-root"
 			if e != nil && e.Chain != m.chain {
 				key = "C12/primary-cert-from-superseded-root"
 			}
-			m.report(t, key, "after `%s` the %s does not verify under the root the authority serves (%v): %s; root %s", a, who, c.CheckSignatureFrom(r), certLine(c), certLine(r))
+			m.report(t, ck(key), "after `%s` the %s does not verify under the root the authority serves (%v): %s; root %s", a, who, c.CheckSignatureFrom(r), certLine(c), certLine(r))
 		}
 		if got := c.NotAfter.Sub(c.NotBefore); got != signLife {
-			m.report(t, "C12/signing-cert-lifetime-wrong", "after `%s` the %s is valid for %.4g days, documented SignValidDays is %d: %s", a, who, got.Hours()/24, docSignDays, certLine(c))
+			m.report(t, ck("C12/signing-cert-lifetime-wrong"), "after `%s` the %s is valid for %.4g days, documented SignValidDays is %d: %s", a, who, got.Hours()/24, docSignDays, certLine(c))
 		}
 		if c.SerialNumber.String() != c.Subject.SerialNumber {
-			m.report(t, "C12/cert-serial-differs-from-subject-serial", "after `%s` the %s has certificate serial %v but subject serial %s: %s", a, who, c.SerialNumber, c.Subject.SerialNumber, certLine(c))
+			m.report(t, ck("C12/cert-serial-differs-from-subject-serial"), "after `%s` the %s has certificate serial %v but subject serial %s: %s", a, who, c.SerialNumber, c.Subject.SerialNumber, certLine(c))
 		}
 		if e != nil {
 			if !c.NotBefore.Equal(e.NotBefore.Truncate(time.Second)) {
-				m.report(t, "C12/signing-cert-not-dated-at-creation-time", "the %s was created by command %d at %s but is %s", who, e.Step, e.NotBefore.Format(time.RFC3339Nano), certLine(c))
+				m.report(t, ck("C12/signing-cert-not-dated-at-creation-time"), "the %s was created by command %d at %s but is %s", who, e.Step, e.NotBefore.Format(time.RFC3339Nano), certLine(c))
 			}
 			if e.Serial != nil && c.Subject.SerialNumber != e.Serial.String() {
 				key := "C12/requested-serial-not-used"
 				if e.SerialKind == "default-next" {
 					key = "C12/default-serial-not-predecessor-plus-one"
 				}
-				m.report(t, key, "the %s (made by command %d, serial rule %s) has subject serial %s, want %v", who, e.Step, e.SerialKind, c.Subject.SerialNumber, e.Serial)
+				m.report(t, ck(key), "the %s (made by command %d, serial rule %s) has subject serial %s, want %v", who, e.Step, e.SerialKind, c.Subject.SerialNumber, e.Serial)
 			}
 		}
 	}
@@ -1211,6 +1260,28 @@ func TestRegressKeepGoingRebootstrapKeepsOldSigningCertificate(t *testing.T) {
 			replay(t, p[0], p[1],
 				action{Kind: "bootstrap", Time: "2024-03-01T00:00:00Z"},
 				action{Kind: "bootstrap", Time: "2025-03-01T00:00:00Z", Overwrite: true, KeepGoing: true})
+		})
+	}
+}
+
+// Known finding (recorded, not repaired): --keep_going without --overwrite silently keeps existing
+// certificate objects / manifest entries that belong to another key. bootstrap; rotate leaves a
+// manifest entry for primarySigningKey_1; bootstrap --overwrite starts a new chain (the nonprod key
+// manager restarts its names) but the entry stays; rotate --keep_going creates a new key version
+// primarySigningKey_1, gcsca.upload finds the stale entry and skips the upload, so the new primary
+// is served with the superseded chain's certificate. (Without --keep_going the same rotation is
+// refused with AlreadyExists.) Reported as C12/keep-going-kept-foreign-certificate/<clause>.
+func TestRegressKeepGoingRotationKeepsStaleManifestEntry(t *testing.T) {
+	for _, p := range [][2]string{{"localkm", "localca"}, {"memkm", "localca"}} {
+		t.Run(p[0]+"+"+p[1], func(t *testing.T) {
+			m := replay(t, p[0], p[1],
+				action{Kind: "bootstrap", Time: "2024-03-01T00:00:00Z"},
+				action{Kind: "rotate", Time: "2024-06-01T00:00:00Z"},
+				action{Kind: "bootstrap", Time: "2025-03-01T00:00:00Z", Overwrite: true},
+				action{Kind: "rotate", Time: "2025-06-01T00:00:00Z", KeepGoing: true})
+			if len(m.outcomes) == 4 && m.outcomes[3] == "ok" && !m.knownHits[keepGoingFamily+"primary-cert-from-superseded-root"] {
+				t.Logf("the keep-going finding no longer reproduces: %s", m.history())
+			}
 		})
 	}
 }
